@@ -414,3 +414,98 @@ func guardPrecedence(c *Ctx) {
 		c.S.Undecided("C14", "ENC-CASE", "floor", "-", "no lookup into the operations index by a method parameter found")
 	}
 }
+
+func init() {
+	register(Rule{
+		Name:  "GUARD-LISTING",
+		Props: []string{"C14"},
+		Doc:   "the id / 'METHOD path' listings and the lookup by id are read off the operations index with the loop's own method and path",
+		Run:   guardListing,
+	})
+}
+
+// guardListing: in every exported *Spec method that ranges over the operations index with nested loops,
+// a formatted "METHOD path" string is built from (outer key, inner key) in that order, an id is taken from
+// the inner value, and a tuple returned from inside the loops is (outer key, inner key, inner value, …).
+func guardListing(c *Ctx) {
+	opsField, _ := getterField(c, "Operations")
+	if opsField == nil {
+		c.S.Undecided("C14", "GUARD-LISTING", "anchor", "-", "cannot identify the operations index")
+		return
+	}
+	n := 0
+	for _, fi := range specQueryMethods(c) {
+		info := c.info(fi)
+		ast.Inspect(fi.Decl.Body, func(nd ast.Node) bool {
+			outer, ok := nd.(*ast.RangeStmt)
+			if !ok {
+				return true
+			}
+			sel, ok := core.Unparen(outer.X).(*ast.SelectorExpr)
+			if !ok || core.FieldOf(info, sel) != opsField || outer.Key == nil || outer.Value == nil {
+				return true
+			}
+			mKey, mVal := core.ObjOf(info, outer.Key), core.ObjOf(info, outer.Value)
+			ast.Inspect(outer.Body, func(m ast.Node) bool {
+				inner, ok := m.(*ast.RangeStmt)
+				if !ok || core.ObjOf(info, inner.X) != mVal || inner.Key == nil {
+					return true
+				}
+				pKey := core.ObjOf(info, inner.Key)
+				var opVal types.Object
+				if inner.Value != nil {
+					opVal = core.ObjOf(info, inner.Value)
+				}
+				n++
+				var bad []string
+				ast.Inspect(inner.Body, func(x ast.Node) bool {
+					switch v := x.(type) {
+					case *ast.CallExpr:
+						callee := c.P.CalleeAny(fi, v)
+						if callee == nil || callee.FullName() != "fmt.Sprintf" || len(v.Args) != 3 {
+							return true
+						}
+						if f, isC := core.ConstString(info, v.Args[0]); !isC || f != "%s %s" {
+							bad = append(bad, "listing format is "+exprStr(v.Args[0])+" (expected \"%s %s\")")
+						}
+						first := core.Unparen(v.Args[1])
+						if call, ok := first.(*ast.CallExpr); ok && len(call.Args) == 1 {
+							first = core.Unparen(call.Args[0])
+						}
+						if core.ObjOf(info, first) != mKey || core.ObjOf(info, v.Args[2]) != pKey {
+							bad = append(bad, "listing entry is built from ("+exprStr(v.Args[1])+", "+exprStr(v.Args[2])+") instead of (method, path) of the same index entry")
+						}
+					case *ast.ReturnStmt:
+						if len(v.Results) >= 3 && opVal != nil {
+							if core.ObjOf(info, v.Results[0]) != mKey || core.ObjOf(info, v.Results[1]) != pKey || core.ObjOf(info, v.Results[2]) != opVal {
+								bad = append(bad, "lookup returns ("+exprStr(v.Results[0])+", "+exprStr(v.Results[1])+", "+exprStr(v.Results[2])+") instead of the entry's own (method, path, operation)")
+							}
+							// guarded by equality of the requested id with the operation's id
+							okc := false
+							for _, cd := range c.conds(fi, v) {
+								if be, ok := core.Unparen(cd.Expr).(*ast.BinaryExpr); ok && cd.Kind == core.CondBool && !cd.Neg && be.Op.String() == "==" {
+									s := exprStr(be.X) + "|" + exprStr(be.Y)
+									if strings.Contains(s, opVal.Name()+".ID") {
+										okc = true
+									}
+								}
+							}
+							if !okc {
+								bad = append(bad, "lookup by id returns without comparing the requested id with the operation's id")
+							}
+						}
+					}
+					return true
+				})
+				c.S.Decide(len(bad) == 0, "C14", "GUARD-LISTING", fi.QName(), c.P.Pos(inner.Pos()),
+					"entries are read off the operations index with the loop's own method, path and operation",
+					strings.Join(bad, "; "))
+				return true
+			})
+			return true
+		})
+	}
+	if n < 3 {
+		c.S.Undecided("C14", "GUARD-LISTING", "floor", "-", fmt.Sprintf("only %d nested loops over the operations index found (confirmed by hand: 3)", n))
+	}
+}
